@@ -100,7 +100,7 @@ def run_tlc(module, cfg, workdir, workers=1, simulate=None, depth=None,
                 res.exit = -9
             # the JVM itself could not start or was killed (memory pressure while other checks run):
             # TLC never got to parse the spec - try again rather than report a machinery failure
-            if res.exit in (0, -9) or "Semantic processing of module" in out or "Error:" in out:
+            if res.exit in (0, -9) or "TLC2 Version" in out:
                 break
             time.sleep(5 * (attempt + 1))
     finally:
